@@ -1,3 +1,246 @@
+import Bch.Proofs.Merkle
+/-
+C11 — built merkle-block proofs verify and reveal exactly the chosen transactions.
+All theorems are about the model's own `build`, `buildMsg`, `traverse`, `extractMsg`, `packFlags`,
+`unpackFlags`, `height`, `isParentGo` (Bch/Model/Merkle.lean); the helper lemmas and the parser-style twin live
+in Bch/Proofs/Merkle.lean. (The "two builders agree" clause is established by comparing both Go builders
+against this single model in the differential harness.)
+-/
 namespace Bch.Props.C11
-theorem placeholder : True := trivial
+open Bch.Model.Merkle Bch.Proofs.Merkle
+
+variable {H : Type} [DecidableEq H]
+
+/-- `isParentGo` (the Go loop over the leaves below a node) is true exactly when some matched leaf index lies in
+`[pos*2^h, min((pos+1)*2^h, n))`. -/
+theorem C11_isParent_eq (m : Nat → Bool) (n h pos : Nat) :
+    isParentGo m n h pos = true ↔
+      ∃ i, pos * 2^h ≤ i ∧ i < (pos+1) * 2^h ∧ i < n ∧ m i = true :=
+  isParentGo_iff m n h pos
+
+/-- the recursive characterisation used by the round trip: a leaf is a "parent" iff it is a real matched leaf;
+an inner node iff its left child or its (existing) right child is. -/
+theorem C11_isParent_rec (m : Nat → Bool) (n : Nat) :
+    (∀ pos, isParentGo m n 0 pos = (decide (pos < n) && m pos)) ∧
+    (∀ h pos, isParentGo m n (h+1) pos =
+      (isParentGo m n h (2*pos) || (decide (2*pos+1 < width n h) && isParentGo m n h (2*pos+1)))) :=
+  ⟨isParentGo_zero m n, isParentGo_succ m n⟩
+
+omit [DecidableEq H] in
+/-- `isParentGo` = "the list of matched leaves below the node is non-empty" -/
+theorem C11_isParent_matchedList (leaves : Nat → H) (m : Nat → Bool) (n h pos : Nat) :
+    isParentGo m n h pos = !(matchedList leaves m n h pos).isEmpty :=
+  isParentGo_eq_not_isEmpty leaves m n h pos
+
+/-- `calcTreeWidth` is the ceiling of `n / 2^h`: `k < width n h ↔ k * 2^h < n`. -/
+theorem C11_width_spec (n h k : Nat) : k < width n h ↔ k * 2^h < n := lt_width_iff n h k
+
+/-- `height n` is the least `h` with `width n h ≤ 1`, and there the width is exactly 1
+(for every `1 ≤ n ≤ 2^33`, in particular every uint32 count; the loop has 33 iterations of fuel). -/
+theorem C11_height_spec (n : Nat) (h1 : 1 ≤ n) (h2 : n ≤ 2^33) :
+    width n (height n) = 1 ∧ (∀ k, k < height n → 1 < width n k) ∧
+    (∀ h, width n h ≤ 1 → height n ≤ h) := by
+  refine ⟨width_height h1 h2, height_least n, ?_⟩
+  intro h hw
+  apply Nat.le_of_not_lt
+  intro hlt
+  have := height_least n h hlt
+  omega
+
+example : (1 : Nat) ≤ 5 ∧ 5 ≤ 2^33 ∧ height 5 = 3 ∧ width 5 3 = 1 ∧ width 5 2 = 2 := by decide
+
+/-- unpacking the packed flag bytes gives the bits back, followed by fewer than 8 `false` padding bits
+(exactly up to the next multiple of 8). -/
+theorem C11_flags_pack (bits : List Bool) :
+    ∃ k, k < 8 ∧ (bits.length + k) % 8 = 0 ∧
+      unpackFlags (packFlags bits) = bits ++ List.replicate k false :=
+  ⟨padLen bits.length, padLen_lt _, padLen_spec _, unpack_packFlags _ bits rfl⟩
+
+/-- a left-injective combiner and pairwise distinct leaves give `NoEqualSiblings` for every subset. -/
+theorem distinct_leaves_ok (comb : H → H → H) (leaves : Nat → H) (n : Nat)
+    (hcomb : ∀ a b c d, comb a b = comb c d → a = c)
+    (hleaves : ∀ i j, i < n → j < n → leaves i = leaves j → i = j) (m : Nat → Bool) :
+    NoEqualSiblings comb leaves m n :=
+  (noEqualSiblingsAll_of_injective comb leaves n hcomb hleaves).toSubset m
+
+/-- **Round trip, `traverse` level.** Running the Go-shaped extractor on what `build` emits for the whole tree
+(followed by arbitrary trailing bits `bs` / hashes `xs`, e.g. byte padding) returns the merkle root, exactly the
+matched leaves and their positions in increasing order, `bad = false`, and has consumed exactly the emitted bits
+and hashes. -/
+theorem C11_roundtrip_traverse (comb : H → H → H) (zero : H) (leaves : Nat → H) (m : Nat → Bool) (n : Nat)
+    (h1 : 1 ≤ n) (h2 : n ≤ 2^33) (hne : NoEqualSiblings comb leaves m n) (bs : List Bool) (xs : List H) :
+    traverse comb zero n ((build comb leaves m n (height n) 0).1 ++ bs).toArray
+        ((build comb leaves m n (height n) 0).2 ++ xs).toArray (height n) 0 {} =
+      (calcHash comb leaves n (height n) 0,
+        { bitsUsed := (build comb leaves m n (height n) 0).1.length,
+          hashesUsed := (build comb leaves m n (height n) 0).2.length,
+          bad := false,
+          matchedHashes := ((List.range n).filter m).map leaves,
+          matchedItems := (List.range n).filter m }) := by
+  have he := extractP_build comb leaves m n (height n) 0 bs xs
+    (noEqSib_of_NoEqualSiblings hne _ _)
+  obtain ⟨t, -⟩ := traverse_init_ok comb zero n _ _ he
+  rw [t, matchedList_root leaves m (Nat.le_of_eq (width_height h1 h2))]
+  simp [List.map_map, Function.comp_def]
+
+/-- **Round trip, message level, weakest hypothesis.** For every non-empty block (`n ≤ maxTxnCount`, the decoder's
+own limit), every subset `m`, under the recursive form `noEqSib … (height n) 0` of the no-equal-siblings
+condition (only nodes actually reached from the root count): `extractMsg (buildMsg …)` — i.e. build, pack the flag bits
+into bytes, unpack them, the four sanity checks, `traverse`, the three consumption checks — returns the block's
+merkle root, exactly the matched leaf hashes and positions in block order, `bad = false`; and the builder's
+index list is that same position list. -/
+theorem C11_roundtrip_rec (comb : H → H → H) (zero dflt : H) (leaves : List H) (m : Nat → Bool)
+    (h1 : 1 ≤ leaves.length) (h2 : leaves.length ≤ maxTxnCount)
+    (hne : noEqSib comb (fun i => leaves.getD i dflt) m leaves.length (height leaves.length) 0) :
+    extractMsg comb zero (buildMsg comb leaves m dflt).1 =
+      ⟨some (calcHash comb (fun i => leaves.getD i dflt) leaves.length (height leaves.length) 0),
+       ((List.range leaves.length).filter m).map (fun i => leaves.getD i dflt),
+       (List.range leaves.length).filter m,
+       false⟩ ∧
+    (buildMsg comb leaves m dflt).2 = (List.range leaves.length).filter m := by
+  refine ⟨?_, rfl⟩
+  have h33 : leaves.length ≤ 2^33 := by unfold maxTxnCount at h2; omega
+  generalize hL : (fun i => leaves.getD i dflt) = L at *
+  generalize hn : leaves.length = n at *
+  have hmsg : (buildMsg comb leaves m dflt).1 =
+      ⟨n, (build comb L m n (height n) 0).2, packFlags (build comb L m n (height n) 0).1⟩ := by
+    simp only [buildMsg, hL, hn]
+  rw [hmsg]
+  have hun := unpack_packFlags _ (build comb L m n (height n) 0).1 rfl
+  have hpre : PreOK (H := H) ⟨n, (build comb L m n (height n) 0).2,
+      packFlags (build comb L m n (height n) 0).1⟩ := by
+    refine ⟨?_, h2, ?_, ?_⟩
+    · dsimp only; omega
+    · have := build_hashes_le_leaves comb L m n (height n) 0 (by omega)
+      dsimp only
+      omega
+    · dsimp only
+      rw [hun, List.length_append]
+      have := build_hashes_le_bits comb L m n (height n) 0
+      omega
+  have he := extractP_build comb L m n (height n) 0
+    (List.replicate (padLen (build comb L m n (height n) 0).1.length) false) []
+    hne
+  rw [List.append_nil, ← hun] at he
+  rw [extractMsg_of_ok comb zero _ hpre he,
+    matchedList_root L m (Nat.le_of_eq (width_height h1 h33))]
+  have := padLen_lt (build comb L m n (height n) 0).1.length
+  simp [List.map_map, Function.comp_def, this]
+
+/-- **Round trip, message level (headline)**: the same under the explicit, non-recursive `NoEqualSiblings`
+(which implies the recursive form). -/
+theorem C11_roundtrip (comb : H → H → H) (zero dflt : H) (leaves : List H) (m : Nat → Bool)
+    (h1 : 1 ≤ leaves.length) (h2 : leaves.length ≤ maxTxnCount)
+    (hne : NoEqualSiblings comb (fun i => leaves.getD i dflt) m leaves.length) :
+    extractMsg comb zero (buildMsg comb leaves m dflt).1 =
+      ⟨some (calcHash comb (fun i => leaves.getD i dflt) leaves.length (height leaves.length) 0),
+       ((List.range leaves.length).filter m).map (fun i => leaves.getD i dflt),
+       (List.range leaves.length).filter m,
+       false⟩ ∧
+    (buildMsg comb leaves m dflt).2 = (List.range leaves.length).filter m :=
+  C11_roundtrip_rec comb zero dflt leaves m h1 h2 (noEqSib_of_NoEqualSiblings hne _ _)
+
+/-- **The hypothesis is necessary.** If some node reached by the builder has two equal children, the honest
+message is rejected by the extractor (no root, `BadTree` set) — the CVE-2012-2459 rule of C12. Together with
+`C11_roundtrip_rec`: the built message is accepted iff `noEqSib … (height n) 0`. -/
+theorem C11_rejects_equal_siblings (comb : H → H → H) (zero dflt : H) (leaves : List H) (m : Nat → Bool)
+    (h1 : 1 ≤ leaves.length) (h2 : leaves.length ≤ maxTxnCount)
+    (hne : ¬ noEqSib comb (fun i => leaves.getD i dflt) m leaves.length (height leaves.length) 0) :
+    (extractMsg comb zero (buildMsg comb leaves m dflt).1).root = none ∧
+    (extractMsg comb zero (buildMsg comb leaves m dflt).1).bad = true := by
+  generalize hL : (fun i => leaves.getD i dflt) = L at *
+  generalize hn : leaves.length = n at *
+  have hmsg : (buildMsg comb leaves m dflt).1 =
+      ⟨n, (build comb L m n (height n) 0).2, packFlags (build comb L m n (height n) 0).1⟩ := by
+    simp only [buildMsg, hL, hn]
+  rw [hmsg]
+  have hun := unpack_packFlags _ (build comb L m n (height n) 0).1 rfl
+  have hpre : PreOK (H := H) ⟨n, (build comb L m n (height n) 0).2,
+      packFlags (build comb L m n (height n) 0).1⟩ := by
+    refine ⟨?_, h2, ?_, ?_⟩
+    · dsimp only; omega
+    · have := build_hashes_le_leaves comb L m n (height n) 0 (by omega)
+      dsimp only
+      omega
+    · dsimp only
+      rw [hun, List.length_append]
+      have := build_hashes_le_bits comb L m n (height n) 0
+      omega
+  have he := extractP_build_error comb L m n (height n) 0
+    (List.replicate (padLen (build comb L m n (height n) 0).1.length) false) [] hne
+  rw [List.append_nil, ← hun] at he
+  exact extractMsg_of_error comb zero _ hpre he
+
+/-- **Exactness**: the honest message for subset `m` is accepted by the extractor iff `NoEqualSiblings` holds
+(so the hypothesis of `C11_roundtrip` cannot be weakened). -/
+theorem C11_accepted_iff (comb : H → H → H) (zero dflt : H) (leaves : List H) (m : Nat → Bool)
+    (h1 : 1 ≤ leaves.length) (h2 : leaves.length ≤ maxTxnCount) :
+    (∃ r, (extractMsg comb zero (buildMsg comb leaves m dflt).1).root = some r) ↔
+      NoEqualSiblings comb (fun i => leaves.getD i dflt) m leaves.length := by
+  have h33 : leaves.length ≤ 2^33 := by unfold maxTxnCount at h2; omega
+  constructor
+  · rintro ⟨r, hr⟩
+    rw [noEqualSiblings_iff _ _ _ _ h1 h33]
+    apply Classical.byContradiction
+    intro hne
+    rw [(C11_rejects_equal_siblings comb zero dflt leaves m h1 h2 hne).1] at hr
+    cases hr
+  · intro hne
+    exact ⟨_, congrArg Extracted.root (C11_roundtrip comb zero dflt leaves m h1 h2 hne).1⟩
+
+/-- non-vacuity of `C11_rejects_equal_siblings`: two equal leaves, both matched -/
+example : ¬ noEqSib (fun a b : Nat => 1000 * a + b) (fun i => [5, 5].getD i 0) (fun _ => true)
+    [5, 5].length (height [5, 5].length) 0 :=
+  fun h => ((h (by decide)).2 (by decide)).2 rfl
+
+/-- what the extractor's cursors look like on a built message: all hashes consumed, all bits consumed up to
+fewer than 8 padding bits. -/
+theorem C11_roundtrip_consumed (comb : H → H → H) (zero dflt : H) (leaves : List H) (m : Nat → Bool)
+    (h1 : 1 ≤ leaves.length) (h2 : leaves.length ≤ maxTxnCount)
+    (hne : NoEqualSiblings comb (fun i => leaves.getD i dflt) m leaves.length) :
+    let msg := (buildMsg comb leaves m dflt).1
+    let st := (traverse comb zero msg.numTx (unpackFlags msg.flags).toArray msg.hashes.toArray
+                (height msg.numTx) 0 {}).2
+    st.bad = false ∧ st.hashesUsed = msg.hashes.length ∧
+      st.bitsUsed ≤ (unpackFlags msg.flags).length ∧ (unpackFlags msg.flags).length < st.bitsUsed + 8 := by
+  intro msg st
+  have h33 : leaves.length ≤ 2^33 := by unfold maxTxnCount at h2; omega
+  have hun := unpack_packFlags _
+    (build comb (fun i => leaves.getD i dflt) m leaves.length (height leaves.length) 0).1 rfl
+  have ht := C11_roundtrip_traverse comb zero (fun i => leaves.getD i dflt) m leaves.length h1 h33 hne
+    (List.replicate (padLen
+      (build comb (fun i => leaves.getD i dflt) m leaves.length (height leaves.length) 0).1.length) false) []
+  rw [List.append_nil, ← hun] at ht
+  have hst : st = _ := congrArg Prod.snd ht
+  have hp := padLen_lt
+    (build comb (fun i => leaves.getD i dflt) m leaves.length (height leaves.length) 0).1.length
+  have hlen : (unpackFlags msg.flags).length = _ := congrArg List.length hun
+  rw [List.length_append, List.length_replicate] at hlen
+  rw [hst]
+  refine ⟨rfl, rfl, ?_, ?_⟩ <;> dsimp only <;> omega
+
+/-! ### non-vacuity: five distinct leaves in the free tree algebra, subset {1,4} -/
+
+section Example
+open FreeTree
+
+/-- the hypothesis of `C11_roundtrip` holds for a concrete injective combiner and distinct leaves -/
+example : NoEqualSiblings node (fun i => exLeaves.getD i (leaf 0)) exM exLeaves.length :=
+  distinct_leaves_ok node _ _ (fun _ _ _ _ h => by injection h) exDistinct exM
+
+/-- … and the theorem yields the expected concrete result: root of the 5-leaf tree (right edge duplicated twice),
+matches `[leaf 1, leaf 4]` at positions `[1, 4]`. -/
+example :
+    extractMsg node (leaf 99) (buildMsg node exLeaves exM (leaf 0)).1 =
+      ⟨some (node (node (node (leaf 0) (leaf 1)) (node (leaf 2) (leaf 3)))
+                  (node (node (leaf 4) (leaf 4)) (node (leaf 4) (leaf 4)))),
+       [leaf 1, leaf 4], [1, 4], false⟩ := by
+  have h := (C11_roundtrip node (leaf 99) (leaf 0) exLeaves exM (by decide) (by decide)
+    (distinct_leaves_ok node _ _ (fun _ _ _ _ h => by injection h) exDistinct exM)).1
+  rw [h]
+  simp only [Extracted.mk.injEq, Option.some.injEq]
+  decide
+
+end Example
+
 end Bch.Props.C11
